@@ -20,7 +20,7 @@ RULE = ("families: (A) instruction-level captures: every item sequence of length
         ".8l,.8H,.8L} x every pair of operands from all family register names plus look-alikes (0x1, %r8, other-family "
         "registers); (F) capture inside $deref fields. Each x EVERY listing of the family's bounded listing set. Oracle: "
         "reference matcher with environments (equality of bound text; fixed register table). Non-trivial = reference "
-        "finds the rule or its first item matches somewhere.")
+        "finds the rule or its first item matches somewhere. Recompile family: for every 5th rule, the regex the same Yaml2Regex object produces when asked a second time (same text, or the same results on every listing).")
 ASSUMPTIONS = ["capture definitions lie on the executed-once spine (property scope)",
                "suffix-less register-family names are generated only as first occurrences"]
 LEVEL_TEXT = ("All capture rules of the stated families x all listings of the family's bounded set; verdict (and alignment) "
@@ -286,8 +286,50 @@ def build_lsets(h, tier):
     return ls
 
 
+def run_recompile(shard, tier, h, res, known, rules, lsets):
+    """every 5th rule: the regex one Yaml2Regex object produces when asked a second time (capture names are registered
+    while the first one is produced) - same text, or else the same results on every listing of the rule's set"""
+    from jasm.jasm_regex.yaml2regex import Yaml2Regex
+    from mc.common import make_rule_doc
+    for ri in range(shard["lo"] * 5, len(rules), shard["n"] * 5):
+        rc = rules[ri]
+        doc = make_rule_doc(rc.pattern)
+        res.evaluations += 1
+        res.nontrivial += 1
+        case = {"clause": "recompile", "family": "recompile/" + rc.family, "rule": doc, "size": len(str(rc.pattern))}
+        try:
+            y = Yaml2Regex(h.rule_file(doc))
+            t1 = y.produce_regex()
+        except Exception:  # noqa  (rules that do not compile are run_rules' subject)
+            continue
+        try:
+            t2 = y.produce_regex()
+        except Exception as e:  # noqa
+            res.fail({**case, "expected": "the same regex again", "observed": repr(e)}, known)
+            continue
+        if t1 == t2:
+            continue
+        m1, m2 = h.mop(doc), h.mop(doc)
+        if not isinstance(getattr(m2, "regex_rule", None), str):
+            res.count("recompile_text_differs_undecided")
+            continue
+        m2.regex_rule = t2
+        for idx, path, norm, att in lsets[rc.lset]:
+            try:
+                same = h.match(m1, path) == h.match(m2, path)
+            except Exception as e:  # noqa
+                same = False
+            if not same:
+                res.fail({**case, "listing": [[a, m, list(o)] for a, m, o in att], "expected": t1[:300], "observed": t2[:300]}, known)
+                break
+        else:
+            res.count("recompile_text_differs_but_equivalent")
+
+
 def run_shard(shard, tier, h, res, known):
-    e1.run_rules(h, res, known, all_rules(tier), e1.get_lsets(h, tier, build_lsets), shard, prop=ID)
+    rules, lsets = all_rules(tier), e1.get_lsets(h, tier, build_lsets)
+    run_recompile(shard, tier, h, res, known, rules, lsets)
+    e1.run_rules(h, res, known, rules, lsets, shard, prop=ID)
 
 
 CONTROLS = [
@@ -312,4 +354,13 @@ def controls(h):
 
 
 def replay(case, h):
+    if case.get("clause") == "recompile":
+        from jasm.jasm_regex.yaml2regex import Yaml2Regex
+        y = Yaml2Regex(h.rule_file(case["rule"]))
+        t1 = y.produce_regex()
+        try:
+            t2 = y.produce_regex()
+        except Exception as e:  # noqa
+            return True, repr(e)
+        return t1 != t2, f"second regex equal: {t1 == t2}"
     return e1.replay_case(case, h, want=W)
